@@ -254,6 +254,8 @@ def _sync_job(state, sp):
                 z = w.meth(ev, y, "phase_sync")
                 if blocks(z) != want or z.fields.get("_phases"):
                     wit.bad("R09.6|idempotent", f"{where}: synchronising twice differs from synchronising once")
+    except Diverges:
+        wit.bad("R09.6|terminates", f"{where}: phase_sync does not terminate (loop bound exceeded: the sign table is never emptied)")
     except Unsupported as e:
         raise AnalysisError(f"phase_sync outside the evaluable sub-language: {e}")
     except Raised as e:
